@@ -164,6 +164,12 @@ def _run(prop, tier, prof, replay_path, t0, sd, work):
                 log(f"[{prop}] generated {len(ds)} behaviours (fifo) t={round(time.time()-t0)}s")
                 driven.extend(ds)
                 continue
+            if g["mode"] == "hugeflush":
+                import drive
+                ds = drive.hugeflush_behaviours(sd * 7919 + len(driven), g["count"], g.get("nkeys", prof["nkeys"]))
+                log(f"[{prop}] generated {len(ds)} behaviours (hugeflush) t={round(time.time()-t0)}s")
+                driven.extend(ds)
+                continue
             if g["mode"] == "deep":
                 import drive
                 ds = drive.deep_behaviours(sd * 7919 + len(driven), g["count"], g.get("nkeys", prof["nkeys"]))
